@@ -13,10 +13,10 @@ rsync -a --exclude .git /repo/ "$scratch/repo/"
 cd "$scratch/repo"
 out=/verif/seeded/$id; mkdir -p "$out"
 cp "$src/patch.diff" "$src/meta.json" "$out/"; cp "$src/demo_test.go" "$out/demo_test.go.txt"
-log="$out/confirm.log"; : > "$log"
+log="$out/confirm.log"; prev=$(grep "^RESULT" "$log" 2>/dev/null | grep -v patch-does-not-apply | tail -1); : > "$log"
 place=$(head -1 "$src/demo_test.go" | sed -n 's|^// place at: *||p')
 if [ -z "$place" ]; then echo "no 'place at' line in demo" | tee -a "$log"; fi
-if ! patch -p1 -s --forward < "$src/patch.diff" >>"$log" 2>&1; then echo "RESULT patch-does-not-apply" | tee -a "$log"; rm -rf "$scratch"; exit 2; fi
+if ! patch -p1 -s --forward < "$src/patch.diff" >>"$log" 2>&1; then echo "RESULT patch-does-not-apply (the code changed since this change was seeded: repaired or rewritten); earlier result on the tree it was seeded for: ${prev:-none}" | tee -a "$log"; rm -rf "$scratch"; exit 2; fi
 pkgs=$(grep '^+++ ' "$src/patch.diff" | sed 's|^+++ [ab]/||; s|\t.*||' | xargs -n1 dirname | sort -u | sed 's|^|./|')
 echo "packages: $pkgs" >> "$log"
 if ! go build ./... >>"$log" 2>&1; then echo "RESULT does-not-compile" | tee -a "$log"; rm -rf "$scratch"; exit 2; fi
